@@ -87,10 +87,16 @@ def cases(rng, tier, shard, nshards):
             pts, meta = gen.curve(rng, nmax=60)
         c = {'points': pts, 'family': meta['family'], 'layout': gen.pick_layout(rng, pts),
              'distance': pick(rng, DISTANCES), 'order': pick(rng, ORDERS)}
+        if rng.random() < 0.04:
+            # int64 magnitudes 1e9..1e10; shortest distance only (the perpendicular distance forms int64 products that
+            # wrap at this magnitude: known finding F-2 of C20, outside this property's check)
+            c.update({'points': gen.large_int_curve(rng, nmax=40), 'family': 'large-int64', 'layout': 'i64', 'distance': 'shortest'})
         if rng.random() < 0.35 and len(pts) <= 40:
             # history: a second chain on the SAME array under another distance / ordering (state kept between
             # calls must not leak from one configuration into the next)
             c['follow'] = {'distance': pick(rng, DISTANCES), 'order': pick(rng, ORDERS)}
+            if c['family'] == 'large-int64':
+                c['follow']['distance'] = 'shortest'
         yield c
 
 
